@@ -24,7 +24,7 @@ func init() {
 		Phases: func(tier string, seed int64) []Phase {
 			return []Phase{{Name: "histories-plain", Run: func(c *Ctx) { c20Run(c, "plain") }}, {Name: "histories-tls", Run: func(c *Ctx) { c20Run(c, "tls") }}}
 		},
-		MinObserved: []string{"steps", "searches_compared", "op/add", "op/modify", "op/delete", "op/set", "searches_with_odd_parameters", "searches_based_at_a_dn_below_the_groups_base", "searches_for_dns_with_parentheses"},
+		MinObserved: []string{"steps", "searches_compared", "op/add", "op/modify", "op/delete", "op/set", "searches_with_odd_parameters", "searches_based_at_a_dn_below_the_groups_base", "searches_for_dns_with_parentheses", "setusers_with_the_same_objects_again"},
 	})
 }
 
@@ -199,6 +199,8 @@ func c20History(c *Ctx, td interface {
 }, clients []*c20Client, r *Rand, transport string, h int) bool {
 	model := &c20Model{Users: map[string]*c20Entry{}, Groups: map[string]*c20Entry{}}
 	useHelpers := r.Chance(35)
+	var lastSet []*c20Entry
+	var lastSetObjs []*gldap.Entry
 	tlog, _ := testdirectory.NewLogger(hclog.New(&hclog.LoggerOptions{Level: hclog.Off}))
 	reset := func() {
 		model.Users, model.Groups = map[string]*c20Entry{}, map[string]*c20Entry{}
@@ -218,6 +220,7 @@ func c20History(c *Ctx, td interface {
 				model.Groups[c20GroupDN(i)] = &c20Entry{Attrs: map[string][]string{"member": {c20UserDN(r.Intn(c20NUsers))}}}
 			}
 		}
+		lastSet, lastSetObjs = nil, nil
 		if useHelpers {
 			// entries built by the library's own helpers: testdirectory.NewUsers(WithMembersOf) hands the SAME
 			// memberOf slice to every user - the store must still treat the entries as independent
@@ -238,17 +241,39 @@ func c20History(c *Ctx, td interface {
 			}
 			td.SetUsers(users...)
 		} else {
-			td.SetUsers(model.entries(true)...)
+			objs := model.entries(true)
+			for _, o := range objs {
+				lastSet = append(lastSet, model.Users[o.DN])
+				lastSetObjs = append(lastSetObjs, o)
+			}
+			td.SetUsers(objs...)
 		}
 		td.SetGroups(model.entries(false)...)
 	}
 	reset()
+	// reSet hands the directory the SAME entry objects as the last SetUsers call did. The directory's contents are shared
+	// with the caller through Set* (the objects ARE the store), so every modification made since then is in them;
+	// entries added through LDAP since then are gone, entries deleted through LDAP are back as they were when deleted.
+	reSet := func() bool {
+		if len(lastSetObjs) == 0 {
+			return false
+		}
+		// (a copy of the slice: the directory keeps the slice it is given and edits it in place on Add and Delete)
+		td.SetUsers(append([]*gldap.Entry{}, lastSetObjs...)...)
+		model.Users = map[string]*c20Entry{}
+		for i, o := range lastSetObjs {
+			model.Users[o.DN] = lastSet[i]
+		}
+		return true
+	}
 	var trace []string
 	fail := func(key, what string) {
 		c.Violate(key, fmt.Sprintf("[%s] history %d step %d: %s", transport, h, len(trace), what), map[string]any{"history": trace, "seed_stream": fmt.Sprintf("h%d", h)})
 	}
 	// verify searches one DN through the appropriate route and compares with the model
+	const sizeLimitNote = "single-entry lookups carry a size limit of 0, 1 or 1000 (a limit that is not exceeded changes nothing)"
 	verify := func(k *c20Client, dn string) bool {
+		limit := int64([]int{0, 1, 1000}[r.Intn(3)])
 		cn := dn[:strings.IndexByte(dn, ',')]
 		addedBelowGroups := strings.HasSuffix(dn, c20Groups) && strings.HasPrefix(cn, "cn=h")
 		outOfBase := strings.HasPrefix(cn, "cn=g") && !strings.HasSuffix(dn, c20Groups)
@@ -259,28 +284,33 @@ func c20History(c *Ctx, td interface {
 		case addedBelowGroups || outOfBase || isGroup && r.Chance(35):
 			// read the entry by its own DN (the filter names its RDN, which is what this directory matches on)
 			mode = "base-is-entry-dn-below-groups"
-			op = sber.Search{Base: []byte(dn), Scope: 0, Filter: sber.EqFilter("cn", cn[3:]), Attrs: [][]byte{}}.Node()
+			op = sber.Search{Base: []byte(dn), Scope: 0, Filter: sber.EqFilter("cn", cn[3:]), Attrs: [][]byte{}, SizeLimit: limit}.Node()
 			c.Count("searches_based_at_a_dn_below_the_groups_base", 1)
 		case strings.Contains(dn, "("):
 			// a DN with parentheses: read by its own DN (filter text would carry them escaped)
 			mode = "base-is-entry-dn"
-			op = sber.Search{Base: []byte(dn), Scope: 0, Filter: sber.PresentFilter("objectClass"), Attrs: [][]byte{}}.Node()
+			op = sber.Search{Base: []byte(dn), Scope: 0, Filter: sber.PresentFilter("objectClass"), Attrs: [][]byte{}, SizeLimit: limit}.Node()
 			c.Count("searches_for_dns_with_parentheses", 1)
 		case isGroup:
 			mode = "groups-filter"
-			op = sber.Search{Base: []byte(c20Groups), Scope: 2, Filter: sber.EqFilter("cn", cn[3:]), Attrs: [][]byte{}}.Node()
+			op = sber.Search{Base: []byte(c20Groups), Scope: 2, Filter: sber.EqFilter("cn", cn[3:]), Attrs: [][]byte{}, SizeLimit: limit}.Node()
 		case r.Bool():
-			op = sber.Search{Base: []byte(c20People), Scope: 2, Filter: sber.EqFilter("cn", cn[3:]), Attrs: [][]byte{}}.Node()
+			op = sber.Search{Base: []byte(c20People), Scope: 2, Filter: sber.EqFilter("cn", cn[3:]), Attrs: [][]byte{}, SizeLimit: limit}.Node()
 		default:
 			mode = "base-is-entry-dn"
-			op = sber.Search{Base: []byte(dn), Scope: 0, Filter: sber.PresentFilter("objectClass"), Attrs: [][]byte{}}.Node()
+			op = sber.Search{Base: []byte(dn), Scope: 0, Filter: sber.PresentFilter("objectClass"), Attrs: [][]byte{}, SizeLimit: limit}.Node()
 		}
-		_, entries, err := k.roundTrip(op, sber.AppSearchResultDone)
+		res, entries, err := k.roundTrip(op, sber.AppSearchResultDone)
 		if err != nil {
 			fail("search got no well-formed answer", err.Error())
 			return false
 		}
 		c.Count("searches_compared", 1)
+		if len(entries) > 0 && res.Code != 0 {
+			// (the result code of an EMPTY search is not asserted; one that returns the entry has succeeded)
+			fail("a search that returns its entry does not end with success", fmt.Sprintf("%s (%s): %d entries, result code %d", dn, mode, len(entries), res.Code))
+		}
+		_ = sizeLimitNote
 		var me *c20Entry
 		if isGroup {
 			me = model.Groups[dn]
@@ -508,7 +538,20 @@ func c20History(c *Ctx, td interface {
 			if !verify(k, dn) {
 				return false
 			}
-		case 9: // Set*: the model is reset with fresh objects
+		case 9: // Set*: the model is reset with fresh objects - or the same objects are handed over once more
+			if r.Chance(40) && reSet() {
+				trace = append(trace, "SetUsers with the same entry objects as last time")
+				kinds = append(kinds, "r")
+				c.Count("op/set", 1)
+				c.Count("setusers_with_the_same_objects_again", 1)
+				mutated = true
+				for i := 0; i < c20NUsers; i++ {
+					if !verify(k, c20UserDN(i)) {
+						return false
+					}
+				}
+				continue
+			}
 			trace = append(trace, "SetUsers/SetGroups (reset)")
 			kinds = append(kinds, "R")
 			c.Count("op/set", 1)
